@@ -8,6 +8,11 @@ FLAVOURS = {
     'schar':    {'cc': 'gcc', 'cflags': SAN + ' -DNDEBUG', 'lib_cflags': '-fsigned-char'},
     'uchar':    {'cc': 'gcc', 'cflags': SAN + ' -DNDEBUG', 'lib_cflags': '-funsigned-char'},
     'tsan':     {'cc': 'gcc', 'cflags': '-O1 -g -fsanitize=thread -DNDEBUG'},
+    # libc entry points reachable from the library are interposed at link time (C11, C15, C18)
+    'asan-wrap': {'cc': 'gcc', 'cflags': SAN + ' -DNDEBUG', 'extra_src': ['pv_wrap.c'],
+                  'ldextra': '-Wl,--wrap=malloc,--wrap=free,--wrap=calloc,--wrap=realloc,--wrap=time,--wrap=clock_gettime,--wrap=gettimeofday,--wrap=getrandom,--wrap=getentropy,--wrap=rand,--wrap=random,--wrap=open,--wrap=fopen,--wrap=clock'},
+    'plain-wrap': {'cc': 'gcc', 'cflags': '-O2 -g -DNDEBUG', 'extra_src': ['pv_wrap.c'],
+                  'ldextra': '-Wl,--wrap=malloc,--wrap=free,--wrap=calloc,--wrap=realloc,--wrap=time,--wrap=clock_gettime,--wrap=gettimeofday,--wrap=getrandom,--wrap=getentropy,--wrap=rand,--wrap=random,--wrap=open,--wrap=fopen,--wrap=clock'},
     # C16: no sanitizer (they change frame layout); eager binding so that the dynamic loader never dumps registers on the monitored stack
     'opt-O0':   {'cc': 'gcc', 'cflags': '-O0 -g -DNDEBUG', 'ldextra': '-Wl,-z,now'},
     'opt-O1':   {'cc': 'gcc', 'cflags': '-O1 -g -DNDEBUG', 'ldextra': '-Wl,-z,now'},
@@ -165,3 +170,37 @@ PROPS['C06'] = {
 MANIFEST_TEXT['C06'] = {'technique': 'runtime monitoring: store/load on exact-size heap buffers vs model image codec; exhaustive field sweeps around valid images (ASan/UBSan) + ledger',
     'text': 'polyseed_store output is compared with the model image for seeds from load and create; polyseed_load is judged against the model load_spec (first applicable of FORMAT, CHECKSUM, UNSUPPORTED) on exhaustive sweeps of bytes 8-9 (with stale and with recomputed check value), every header byte, byte 28, byte 29 and bytes 30-31 around sampled valid images under rotating feature masks, on multi-bit mutations and on random buffers with and without valid framing; every accepted buffer must be reproduced by store, and the allocator ledger must show no block left after a failed load.',
     'note': _TB + '2^256 buffers are sampled; the non-secret fields are enumerated completely around each sampled image. Platform independence is observed on x86-64 only.'}
+
+PROPS['C10'] = {
+    'level': 'exploration',
+    'exhaustive_possible': True,
+    'runs': [{'name': 'asan', 'flavour': 'asan', 'driver': 'drv_c10'}],
+    'require': {'default.cells_ok': 32, 'enable.return_ok': 6000, 'cell.load.OK': 1000, 'cell.load.ERR_UNSUPPORTED': 1000, 'cell.decode.ERR_UNSUPPORTED': 1000,
+                'cell.decode_explicit.ERR_UNSUPPORTED': 1000, 'cell.create.ERR_UNSUPPORTED': 500, 'cell.create.OK': 500, 'getters.checked': 5000, 'history.creates_ok': 5000},
+}
+MANIFEST_TEXT['C10'] = {'technique': 'runtime monitoring: exhaustive argument x feature-value x entry-point matrix through the API vs model (ASan/UBSan)',
+    'text': 'Every enabling argument (0..7 and arguments with high bits) x every 5-bit feature value x {create, decode, decode_explicit, load}, directly and after random prior enabling calls, over sampled seeds/languages/coins: status must be UNSUPPORTED exactly when a bit outside the enabled user bits and the encrypted bit is set; enable_features must return popcount(arg&7); getters must return value&q&7; features must survive phrase, storage and crypt round trips; the default mask is observed in fresh processes.',
+    'note': _TB + 'The matrix is enumerated completely; seeds, languages and coins inside each cell are sampled.'}
+
+PROPS['C11'] = {
+    'level': 'exploration',
+    'exhaustive_possible': True,
+    'runs': [{'name': 'plain-wrap', 'flavour': 'plain-wrap', 'driver': 'drv_c11', 'timeout': 1800},
+             {'name': 'asan-wrap', 'flavour': 'asan-wrap', 'driver': 'drv_c11', 'env': {'PV_SCALE': '10'}, 'shards': 6}],
+    'require': {'creates.boundary.injected': 4100, 'creates.boundary.libc': 4100, 'creates.special.libc': 20, 'creates.random-in-range.injected': 50000,
+                'creates.random-64bit.libc': 10000, 'persist.phrase_ok': 10000, 'persist.crypt_ok': 1024},
+    'require_tier': {'thorough': {'creates.sweep.injected': 40000000}},
+}
+MANIFEST_TEXT['C11'] = {'technique': 'runtime monitoring: scripted clock through the injected entry and through link-time interposed libc time(); integer-arithmetic oracle',
+    'text': 'polyseed_create is driven with clock values on both sides of all 1024 month boundaries, the epoch boundary, 0, 2^31/2^32/2^63 neighbours, 2^64-2, 2^64-1 ((time_t)-1), the end of the range and random values, through both clock sources; thorough sweeps the whole 1024-month range every 61 s (4.4x10^7 creates). Each reported birthday must satisfy B <= t < B+step inside the range, be the epoch for broken clocks, never be later than t, be epoch+k*step with k<=1023 and equal the model; one seed per month is carried through all languages, storage and encryption.',
+    'note': _TB + 'Clock values outside the enumerated and sampled ones are not observed.'}
+
+PROPS['C12'] = {
+    'level': 'exploration',
+    'runs': [{'name': 'asan', 'flavour': 'asan', 'driver': 'drv_c12'}],
+    'require': {'involution.restored': 20000, 'cases.all_clauses_held': 20000, 'crypt.mask_source.boundary': 5000, 'crypt.mask_source.random': 5000,
+                'equivalent_spellings.agree(forms really differ)': 1500, 'crypt.password.empty': 500, 'crypt.password.hangul': 500},
+}
+MANIFEST_TEXT['C12'] = {'technique': 'runtime monitoring: PBKDF2 monitor with scripted masks + model of the password operation, observed through every seed observer and round trips (ASan/UBSan)',
+    'text': 'Seeds x a password alphabet (empty, ASCII, accented NFC/NFD, Hangul, kana with dakuten, fullwidth, ligatures, random Unicode, long) x KDF masks (all-00, all-FF, only the two dropped bits, only byte 18, single bits, only ignored bytes, random, or an argument-mixing stand-in) x up to 7 applications: after each application the monitor must have seen exactly (NFKD(password), length, salt, 16, 10000, 32) and the seed must equal the model in store bytes (incl. recomputed check value), getters and KDF inputs, and must survive store/load and encode/decode; the same password twice must restore the seed bit for bit; NFC/NFD spellings must give identical results.',
+    'note': _TB + 'Passwords whose NFKD form does not fit the public buffer are outside the domain (C14 covers their safety).'}
